@@ -7,6 +7,7 @@ import Verif.C08.Lemmas
 import Verif.Generated.TablesC08
 import Verif.C08.DateLemmas
 import Verif.C08.SpellingLemmas
+import Verif.C08.TypedLemmas
 
 namespace Verif.C08
 open Verif.Py Verif.Tables
@@ -82,7 +83,9 @@ theorem join_injective (vs ws : List (Option (List Char))) (hv : vs ≠ []) (hw 
 
 theorem castInt_formatInt (i : Int) : castInt (formatInt i) = .ok i := L.castInt_formatInt i
 
-/-- strings: the formatted form is the string itself and casting a non-empty raw value is the identity. -/
+/-- strings: the formatted form is the string itself and casting a non-empty raw value is the identity.
+(TRIVIAL BY DEFINITION: `format` and `cast` of the model are the identity on `:string`; what ties this to the
+code is the correspondence run and the direct oracle, not this theorem.) -/
 theorem castStr_formatStr (s : List Char) (h : s ≠ []) :
     cast .string (format .string (.str s)) = .val (.str s) := by
   cases s with
@@ -121,7 +124,8 @@ example : (⟨1900, 2, 29, 0, 0, 0⟩ : DT).Valid = false := by decide
 
 /-! ## "a row object always exposes exactly the cast of its stored raw data by index, slice, name and iteration" -/
 
-/-- iteration is the cast of each stored raw datum (definition of the model, stated for the record):
+/-- (DEFINITIONAL restatement of `Row.iter`; the independent specification is `row_iter_spec` below.)
+iteration is the cast of each stored raw datum (definition of the model, stated for the record):
 the row built from values stores `format` of each value and iteration yields `cast` of each. -/
 theorem row_iter (ts : List DType) (ns : List (List Char)) (vs : List Val) :
     (mkRow ts ns vs).iter = List.zipWith cast ts (List.zipWith format ts vs) := rfl
@@ -135,7 +139,9 @@ theorem row_index (r : Row) (i : Int) (hl : r.types.length = r.data.length) :
 theorem row_slice (r : Row) (sl : Slice) (hl : r.types.length = r.data.length) :
     r.getSlice sl = Py.getSlice r.iter sl := L.row_getSlice r sl hl
 
-/-- access by name is access by the (last) index carrying that name; unknown name = KeyError. -/
+/-- (DEFINITIONAL restatement of `Row.getName`; the independent specifications are `row_name_dict`,
+`row_name_last_wins`, `row_name_missing` below.)
+access by name is access by the (last) index carrying that name; unknown name = KeyError. -/
 theorem row_name (r : Row) (k : List Char) :
     r.getName k =
       match ((List.range r.names.length).filter (fun i => r.names[i]? = some k)).getLast? with
@@ -271,5 +277,186 @@ theorem c08_pins :
     ∧ c08EscapeConsts = ["\\", "\\\\", "\n", "\\n", "\\s"]
     ∧ c08UnescapeConsts = ["\\", "s", "@", "n", "\n", ""] := by
   refine ⟨?_, ?_, ?_, ?_, ?_⟩ <;> rfl
+
+end Verif.C08
+
+namespace Verif.C08
+open Verif.Py Verif.Tables
+
+/-! ## `Row` access against independent specifications
+
+"a row object always exposes exactly the cast of its stored raw data by index, slice, name and iteration" -/
+
+/-- iteration yields, position by position, the cast of the stored raw datum with the datatype of the field
+at that position, and nothing else (as many items as columns). -/
+theorem row_iter_spec (r : Row) (hl : r.types.length = r.data.length) :
+    r.iter.length = r.data.length ∧
+    ∀ i (h1 : i < r.types.length) (h2 : i < r.data.length), r.iter[i]? = some (cast r.types[i] r.data[i]) :=
+  ⟨by rw [iter_length, hl, Nat.min_self], fun i h1 h2 => iter_getElem r i h1 h2⟩
+
+/-- the same as one equation: `tuple(row) = [cast(fields[i].datatype, data[i]) for i in range(len(data))]`. -/
+theorem row_iter_ofFn (r : Row) (hl : r.types.length = r.data.length) :
+    r.iter = List.ofFn (fun i : Fin r.data.length => cast (r.types[i.1]'(by have := i.2; omega)) r.data[i.1]) := by
+  apply List.ext_getElem
+  · rw [iter_length, List.length_ofFn]; omega
+  · intro i h1 h2
+    have h2' : i < r.data.length := by simpa using h2
+    have := iter_getElem r i (by omega) h2'
+    rw [List.getElem?_eq_getElem h1] at this
+    simpa using Option.some.inj this
+
+/-- access by name goes through the dict `{field.name: i for i, field in enumerate(fields)}`
+(`make_field_index`; `dictIndex` folds the assignments left to right, a later one overwriting an earlier
+one): unknown name = KeyError, otherwise the value at the index the dict holds. -/
+theorem row_name_dict (r : Row) (k : List Char) :
+    r.getName k = match dictIndex r.names k with
+      | none => none
+      | some i => r.getIdx i := by
+  unfold Row.getName
+  simp only [getLast_filter_dict]
+  rfl
+
+/-- the index the dict holds is the LAST position of the name, found by searching from the end. -/
+theorem field_index_last (names : List (List Char)) (k : List Char) : dictIndex names k = lastIndexOf names k :=
+  dictIndex_eq_last names k
+
+/-- "last one wins" for a repeated field name, as a characterisation: `row[name]` is `v` exactly when `v`
+is the value at a position `i` that carries the name while no later position does. -/
+theorem row_name_last_wins (r : Row) (k : List Char) (v : CastRes) :
+    r.getName k = some v ↔
+      ∃ i, i < r.names.length ∧ r.names[i]? = some k ∧ (∀ j, i < j → j < r.names.length → r.names[j]? ≠ some k)
+        ∧ r.getIdx i = some v := by
+  unfold Row.getName
+  constructor
+  · intro h
+    cases hg : ((List.range r.names.length).filter (fun i => r.names[i]? = some k)).getLast? with
+    | none => simp [hg] at h
+    | some i =>
+      simp only [hg] at h
+      obtain ⟨h1, h2, h3⟩ := (getLast_filter_iff _ _ i).mp hg
+      exact ⟨i, h1, by simpa using h2, fun j a b => by simpa using h3 j a b, h⟩
+  · rintro ⟨i, h1, h2, h3, h4⟩
+    have : ((List.range r.names.length).filter (fun i => r.names[i]? = some k)).getLast? = some i :=
+      (getLast_filter_iff _ _ i).mpr ⟨h1, by simpa using h2, fun j a b => by simpa using h3 j a b⟩
+    simp only [this, h4]
+
+/-- a name no field carries is a KeyError. -/
+theorem row_name_missing (r : Row) (k : List Char) (h : k ∉ r.names) : r.getName k = none := by
+  cases hg : r.getName k with
+  | none => rfl
+  | some v =>
+    obtain ⟨i, h1, h2, _⟩ := (row_name_last_wins r k v).mp hg
+    exact absurd (List.mem_of_getElem? h2) h
+
+example : (mkRow [.integer, .string, .string] ["a".toList, "b".toList, "a".toList]
+    [.int 1, .str "x".toList, .str "y".toList]).getName "a".toList = some (.val (.str "y".toList)) := by decide
+
+/-! ## typed `split(line, fields)` / `join(values, fields)`
+
+"joining … and splitting that line returns the same values" through the typed interface: column-count
+check, `Field.default` for `None`, `cast` per datatype. -/
+
+/-- `join(values, fields)` with a wrong number of values is a `TSDBError`, whatever the values. -/
+theorem join_typed_count_mismatch (fields : List Field) (vals : List Val) (hne : fields ≠ [])
+    (hl : vals.length ≠ fields.length) : joinTyped fields vals = .error .tsdbError := by
+  have he : fields.isEmpty = false := by cases fields <;> simp_all
+  simp [joinTyped, he, hl]
+
+/-- `split(line, fields)` on a line with a wrong number of columns is a `TSDBError` — no column is cast,
+shifted or dropped. -/
+theorem split_typed_count_mismatch (fields : List Field) (line : List Char) (raw : List (Option (List Char)))
+    (hne : fields ≠ []) (hr : splitRaw line = .ok raw) (hl : raw.length ≠ fields.length) :
+    splitTyped fields line = .error .tsdbError := by
+  have he : fields.isEmpty = false := by cases fields <;> simp_all
+  simp [splitTyped, hr, he, hl]
+
+/-- a malformed escape is reported before anything else. -/
+theorem split_typed_bad_escape (fields : List Field) (line : List Char) (e : Err) (hr : splitRaw line = .error e) :
+    splitTyped fields line = .error e := by
+  simp [splitTyped, hr]
+
+/-- the typed encoding is the raw encoding of the formatted columns: exactly one delimiter per column
+boundary and no raw newline (`join_delims`, `join_no_newline` apply). -/
+theorem join_typed_safe (fields : List Field) (vals : List Val) (hne : fields ≠ [])
+    (hl : vals.length = fields.length) :
+    ∃ line, joinTyped fields vals = .ok line ∧ line.count fieldDelimiter = fields.length - 1 ∧ '\n' ∉ line := by
+  refine ⟨_, joinTyped_eq_joinRaw fields vals hne hl, ?_, join_no_newline _⟩
+  have hcne : (List.zipWith formatField fields vals).map some ≠ [] := by
+    cases fields with
+    | nil => exact absurd rfl hne
+    | cons f fs => cases vals with
+      | nil => simp at hl
+      | cons v vs => simp
+  rw [join_delims _ hcne]
+  simp [hl]
+
+/-- typed split ∘ typed join: a record whose values fit their columns (`Fits`: integer in `:integer`,
+string in `:string`, calendar-valid date-time of the years 1000–9999 in `:date`, `None` anywhere) is read back
+as itself up to the documented exceptions (`readBack`): `None` ↦ the cast of the field's default (`-1` for
+`:integer`, the coded attribute's value, else `None`) and `''` ↦ `None`; with or without the line terminator. -/
+theorem split_join_typed (fields : List Field) (vals : List Val) (hne : fields ≠ [])
+    (hl : vals.length = fields.length) (hf : ∀ p ∈ fields.zip vals, Fits p.1 p.2) :
+    ∃ line, joinTyped fields vals = .ok line
+      ∧ splitTyped fields line = .ok (List.zipWith readBack fields vals)
+      ∧ splitTyped fields (line ++ ['\n']) = .ok (List.zipWith readBack fields vals) := by
+  refine ⟨_, joinTyped_eq_joinRaw fields vals hne hl, ?_, ?_⟩
+  all_goals
+    have hcne : (List.zipWith formatField fields vals).map some ≠ [] := by
+      cases fields with
+      | nil => exact absurd rfl hne
+      | cons f fs => cases vals with
+        | nil => simp at hl
+        | cons v vs => simp
+    have hs := split_join _ hcne
+    have hlen : (((List.zipWith formatField fields vals).map some).map normEmpty).length = fields.length := by
+      simp [hl]
+  · rw [splitTyped_of_raw fields _ _ hne hs.1 hlen, zip_cells, cells_ok fields vals hl hf]
+  · rw [splitTyped_of_raw fields _ _ hne hs.2 hlen, zip_cells, cells_ok fields vals hl hf]
+
+/-- `None` is always readable: the default of every field casts to a value (for the coded attributes of
+the generated table, pinned in `coded_pin`). -/
+theorem typed_default_casts (f : Field) : castPy f.dt f.default = .val (defaultVal f) := default_casts f
+
+/-- a field that is not a coded attribute: `None` is written as `-1` in an `:integer` column and reads back
+as the integer −1 ("cast is the inverse of format except for integer values of -1 … and coded defaults");
+in the other columns it is written as the empty string and reads back as `None`. -/
+theorem typed_default_uncoded (f : Field) (h : codedAttributes.find? (fun p => p.1.toList == f.name) = none) :
+    f.default = (if f.dt = .integer then ['-', '1'] else []) ∧
+    defaultVal f = (if f.dt = .integer then .int (-1) else .none) := default_uncoded f h
+
+example : defaultVal ⟨"i-wf".toList, .integer⟩ = .int 1 ∧ defaultVal ⟨"polarity".toList, .integer⟩ = .int (-1)
+    ∧ defaultVal ⟨"i-difficulty".toList, .string⟩ = .str "1".toList ∧ defaultVal ⟨"i-wf".toList, .date⟩ = .none
+    ∧ defaultVal ⟨"i-id".toList, .integer⟩ = .int (-1) ∧ defaultVal ⟨"i-input".toList, .string⟩ = .none := by decide
+example : joinTyped [⟨"i-id".toList, .integer⟩, ⟨"i-input".toList, .string⟩] [.none, .str "a@b".toList]
+    = .ok "-1@a\\sb".toList := by decide
+example : splitTyped [⟨"i-id".toList, .integer⟩, ⟨"i-input".toList, .string⟩] "-1@ab\n".toList
+    = .ok [.int (-1), .str "ab".toList] := by decide
+example : splitTyped [⟨"i-id".toList, .integer⟩] "1@2".toList = .error .tsdbError := by decide
+example : splitTyped [⟨"i-id".toList, .integer⟩] "x".toList = .error .valueError := by decide
+
+/-! ## the wider `int()` / date casts agree with the core ones -/
+
+/-- wherever the core model of `int()` (`[+-]?[0-9]+`) gives an answer, the wider one (ASCII blanks at both
+ends, PEP 515 underscores) gives the same: the theorems stated for `castInt`/`cast` carry over. -/
+theorem castIntPy_refines (s : List Char) (h : castInt s ≠ .error .unmodelled) : castIntPy s = castInt s :=
+  L.castIntPy_refines s h
+
+theorem castPy_refines (dt : DType) (raw : List Char) (ha : raw.all isAscii = true) (ht : isTodayNow raw = false)
+    (h : cast dt raw ≠ .err .unmodelled) : castPy dt raw = cast dt raw := L.castPy_refines dt raw ha ht h
+
+/-- the round trips through the wider cast. -/
+theorem castPy_format_int (i : Int) : castPy .integer (format .integer (.int i)) = .val (.int i) :=
+  castPy_formatInt i
+
+theorem castPy_format_date (t : DT) (hv : t.Valid = true) : castPy .date (format .date (.date t)) = .val (.date t) :=
+  castPy_formatDate t hv
+
+example : castIntPy "1_0".toList = .ok 10 ∧ castIntPy " -1_2 ".toList = .ok (-12) ∧ castIntPy "\t1\n".toList = .ok 1
+    ∧ castIntPy "1__0".toList = .error .valueError ∧ castIntPy "_1".toList = .error .valueError
+    ∧ castIntPy "1_".toList = .error .valueError ∧ castIntPy "- 1".toList = .error .valueError
+    ∧ castIntPy [Char.ofNat 31, '1'] = .error .valueError ∧ castIntPy " ".toList = .error .valueError := by decide
+example : parseDatePy "1".toList = .invalid ∧ parseDatePy "today".toList = .unmodelled
+    ∧ parseDatePy "now-95".toList = .unmodelled := by decide
+example : parseDate ("1-2-2003".toList ++ [Char.ofNat 31] ++ "10:51".toList) = .ok ⟨2003, 2, 1, 10, 51, 0⟩ := by decide
 
 end Verif.C08
